@@ -648,6 +648,96 @@ func checkErrorsExaminedOnEveryPath(p *Program, r *Result, pkgs []string) {
 							}
 						}
 					}
+					// a failure of the source keeps its identity: on a path that found the error of a
+					// source read to be non-nil, compared it with nothing, and returns an error, that
+					// error is E or wraps E (as resolved along this path: a variable overwritten with
+					// another error on the way no longer does). Otherwise typed errors of the layers
+					// below (*armor.Error) are lost to errors.As.
+					if fei := errorResultIndex(fn.Signature); fei >= 0 && (sourceReads[name] || name == pkgFormat+".Parse" || name == "(*"+pkgFormat+".StanzaReader).ReadStanza") {
+						ret := pa.Last.(*ssa.Return)
+						if isNil, known := pa.NilOnPath(errv, len(pa.Blocks)); known && !isNil {
+							compared := false
+							for i, blk := range pa.Blocks {
+								if i >= len(pa.Edge) || pa.Edge[i] < 0 {
+									continue
+								}
+								ifi, ok := blk.Instrs[len(blk.Instrs)-1].(*ssa.If)
+								if !ok || !valueMentions(ifi.Cond, carries, 0) {
+									continue
+								}
+								if _, _, isTest := nilTestOf(blk); !isTest {
+									compared = true
+								}
+							}
+							for _, pin := range pa.Instrs() {
+								if pc, ok := pin.(*ssa.Call); ok {
+									if cn := calleeName(&pc.Call); cn == "errors.Is" || cn == "errors.As" {
+										for _, a := range pc.Call.Args {
+											if carries[a] {
+												compared = true
+											}
+										}
+									}
+								}
+							}
+							var onPath func(v ssa.Value, d int) bool
+							onPath = func(v ssa.Value, d int) bool {
+								if d > 6 || v == nil {
+									return false
+								}
+								v = pa.Resolve(v)
+								if v == errv {
+									return true
+								}
+								switch x := v.(type) {
+								case *ssa.MakeInterface:
+									return onPath(x.X, d+1)
+								case *ssa.ChangeInterface:
+									return onPath(x.X, d+1)
+								case *ssa.ChangeType:
+									return onPath(x.X, d+1)
+								case *ssa.Call:
+									cn := calleeName(&x.Call)
+									if cn == "fmt.Errorf" || strings.HasSuffix(cn, ".errorf") || strings.HasSuffix(cn, ".setErr") {
+										for _, a := range x.Call.Args {
+											if onPath(a, d+1) {
+												return true
+											}
+											// the variadic slice: what was stored into its backing array
+											if sl, ok := a.(*ssa.Slice); ok {
+												if al, ok := sl.X.(*ssa.Alloc); ok && al.Referrers() != nil {
+													for _, r3 := range *al.Referrers() {
+														if ia, ok := r3.(*ssa.IndexAddr); ok && ia.Referrers() != nil {
+															for _, r4 := range *ia.Referrers() {
+																if st, ok := r4.(*ssa.Store); ok && st.Addr == ssa.Value(ia) && onPath(st.Val, d+1) {
+																	return true
+																}
+															}
+														}
+													}
+												}
+											}
+										}
+									}
+								}
+								return false
+							}
+							rv := resultsOf(ret)[fei]
+							if !compared && !isNilConst(stripConv(pa.Resolve(rv))) && !onPath(rv, 0) {
+								// stored in sticky state counts as kept
+								kept := false
+								for _, pin := range pa.Instrs() {
+									if st, ok := pin.(*ssa.Store); ok && onPath(st.Val, 0) {
+										kept = true
+									}
+								}
+								if !kept {
+									bad = "path " + pa.String() + " replaces the error of " + short(name) + " by another error (returned at " + r.pos(ret) + "): a typed error of the layer below is no longer reachable through errors.As"
+									break
+								}
+							}
+						}
+					}
 					// only the part of the path after the call matters; conditions before it in the
 					// same block cannot exist (the call is in the first block of the path)
 					examined := false
